@@ -171,7 +171,7 @@ def one(prop, repo, ref_cache=None):
     try:
         ev = json.load(open(ev_path))
         ev["coverage"]["refactor_selftest"] = {
-            "what": "behaviour-preserving refactorings of /repo written by independent sub-agents; every check must stay silent on them; not part of the verdict",
+            "what": "behaviour-preserving refactorings of /repo written by independent sub-agents (r*) and repaired versions of the seeded changes (rp_*); every check should stay silent on them; the alarms are listed; not part of the verdict",
             "applied": len(silent) + len(alarmed),
             "silent": len(silent),
             "alarmed": {x["id"]: x["alarms"] for x in alarmed},
